@@ -249,9 +249,11 @@ theorem frag_second_pass_tokens (f2 : File) (hwf : f2.wf = true) :
   rw [h1, ← toksL_proj_false, hl, toksL_proj_false, items_toks_lexM]
 
 /-- FIXED POINT FOR COMMENT-FREE FILES. For every well-formed file of the fragment without comments
-    (nested sets / `rec` sets / lists / bindings / parenthesised expressions / function calls / select
-    `e.a.b` / `or default` / lambda `x: body` / unary and binary operators / leaves with arbitrary
-    whitespace, any depth; not `with` / `assert`: `Cst.cf`), the
+    (nested sets / `rec` sets / lists / bindings / parenthesised expressions / function calls /
+    `with e; body` / select `e.a.b` / `or default` / lambda `x: body` / unary and binary operators / leaves
+    with arbitrary whitespace, any depth; not `assert`, and no `-` in front of an expression whose first
+    token is a path literal, which the output fuses into one token — `Cst.fusesMinus`,
+    `C01.cex_unary_minus_path_fused`: `Cst.cf`), the
     text the round trip writes is the flattening of the well-formed comment-free tree `File.norm f`
     — the round trip IS that tree normaliser (`file_rt`: one line break per item of a container
     that spans lines, blank lines kept as one, two-space indentation, values on their own line
@@ -263,7 +265,11 @@ theorem frag_second_pass_tokens (f2 : File) (hwf : f2.wf = true) :
     go on their own line at the indentation read from the gap; the body of a lambda and the two sides of a
     binary operator keep the NUMBER of line breaks of the source — cf. `C18.cex_blank_lines_after_colon`
     / `cex_blank_lines_around_operator` — at the current indentation, the right operand at the
-    indentation `_resolve_right_operand` gives it: `binRightIndentC`) — and
+    indentation `_resolve_right_operand` gives it: `binRightIndentC`; the environment of a `with` follows
+    after one space or on its own line at the indentation read from the gap, `;` attached, the body on its
+    own line at the current indentation when the source has a line break around the `;`, else after one
+    space when it is a set / list, else on its own line when it spans several lines, else after one space)
+    — and
     the round trip of that tree writes the same text again (`File.norm` is idempotent). `File.norm f`
     is the tree tree-sitter returns for the output: compared with the real tree, node by node, on
     every comment-free sample of every run (`fragment_correspondence`), which is the parser-contract
